@@ -352,7 +352,48 @@ def gen_inverse(rng, tier):
     return "%s %s" % (op, mstr(A))
 
 
-GENS = [gen_basic, gen_basic, gen_elim, gen_elim, gen_solve, gen_solve, gen_factor, gen_det, gen_inverse]
+def gstr(z):
+    """a Gaussian rational (re, im) in the entry syntax <re>_<im>"""
+    re_, im = z
+    return fstr(re_) if im == 0 else "%s_%s" % (fstr(re_), fstr(im))
+
+
+def gen_gauss(rng, tier):
+    """Gaussian-rational entries: outside the model (entries are exact rationals there); the library's result is
+    judged by the driver's oracle only (same reference algorithms over Q(i))"""
+    def gent():
+        q = rng.random()
+        if q < 0.15:
+            return (Fraction(0), Fraction(0))
+        if q < 0.45:
+            return (ent(rng), Fraction(0))
+        return (ent(rng, rat_p=0.1), Fraction(rng.choice([1, -1, 2, -2, 3, Fraction(1, 2), Fraction(-2, 3)])))
+
+    def gmat(r, c):
+        return "%d %d %s" % (r, c, ",".join(gstr(gent()) for _ in range(r * c)))
+    op = rng.choice(["add", "mul", "transpose", "pgj", "pffgj", "rref0", "rref1", "plu", "plu_solve", "inv_plu", "inv_gj",
+                     "ffgj_solve", "det_bareis", "det_berkowitz", "char_poly", "row_add_row"])
+    n = rng.choice([1, 2, 2, 3, 3, 4])
+    if op == "add":
+        return "add %s %s" % (gmat(n, 3), gmat(n, 3))
+    if op == "mul":
+        k = rng.choice([1, 2, 3])
+        return "mul %s %s" % (gmat(n, k), gmat(k, 2))
+    if op == "transpose":
+        return "transpose %s" % gmat(n, rng.choice([1, 2, 3]))
+    if op in ("pgj", "pffgj"):
+        return "%s %s" % (op, gmat(n, rng.choice([n, n + 1, 2])))
+    if op in ("rref0", "rref1"):
+        return "rref %s %s" % (gmat(n, rng.choice([n, n + 1, 2])), op[-1])
+    if op in ("plu_solve", "ffgj_solve"):
+        return "%s %s %s%s" % (op, gmat(n, n), gmat(n, rng.choice([1, 2])), " 1" if op == "ffgj_solve" else "")
+    if op == "row_add_row":
+        n = max(n, 2)
+        return "row_add_row %s 0 1 %s" % (gmat(n, 3), gstr(gent()))
+    return "%s %s" % (op, gmat(n, n))
+
+
+GENS = [gen_basic, gen_basic, gen_elim, gen_elim, gen_solve, gen_solve, gen_factor, gen_det, gen_inverse, gen_gauss]
 
 CORPUS = [
     # DESIGN.md section 11 row 22: column counter used as pivot row after a skipped column
@@ -403,6 +444,29 @@ CORPUS = [
 ]
 
 
+class G:
+    """Gaussian rational (only what rank() needs)"""
+    def __init__(self, re_, im=0):
+        self.re, self.im = Fraction(re_), Fraction(im)
+
+    def __eq__(self, o):
+        o = o if isinstance(o, G) else G(o)
+        return self.re == o.re and self.im == o.im
+
+    def __ne__(self, o):
+        return not self == o
+
+    def __sub__(self, o):
+        return G(self.re - o.re, self.im - o.im)
+
+    def __mul__(self, o):
+        return G(self.re * o.re - self.im * o.im, self.re * o.im + self.im * o.re)
+
+    def __truediv__(self, o):
+        n = o.re * o.re + o.im * o.im
+        return G((self.re * o.re + self.im * o.im) / n, (self.im * o.re - self.re * o.im) / n)
+
+
 def first_matrix(case):
     t = case.split()
     try:
@@ -410,7 +474,11 @@ def first_matrix(case):
         es = [] if t[3] == "-" else t[3].split(",")
         if len(es) != r * c or any(e in ("zoo", "nan") for e in es):
             return None
-        return [[Fraction(es[i * c + j]) for j in range(c)] for i in range(r)]
+        if "_" in t[3]:
+            es = [G(*e.split("_")) if "_" in e else G(e) for e in es]
+        else:
+            es = [Fraction(e) for e in es]
+        return [[es[i * c + j] for j in range(c)] for i in range(r)]
     except (ValueError, IndexError):
         return None
 
@@ -484,6 +552,8 @@ def explore(ctx, drv, model, cases, search=False):
             ctx.violation("C24/%s:crash-%s" % (op, classify(c)),
                           "case `%s` ends with %s on the library (model: %s)" % (c, canon[-40:], m[-80:]),
                           {"family": "C24", "case": c, "impl": canon, "model": m})
+        if "_" in c.split(None, 1)[1]:
+            continue                      # Gaussian-rational case: oracle only (outside the model)
         if canon != norm_model(m):
             ndis += 1
             if ndis <= 3:
@@ -519,7 +589,8 @@ def run(ctx):
         "functions [xadd xsub xmul xdiv xpow2] of the model (validated on every explored case, including zoo/nan operands)",
         "freshly sized result matrices hold null RCPs that every routine overwrites before reading (the model holds zeros there)",
         "SYMENGINE_ASSERT is compiled out (release build): calls violating the documented dimension preconditions are not generated",
-        "symbolic square roots (cholesky/QR on non-square radicands) and Gaussian rationals are outside the model; QR is not modelled",
+        "symbolic square roots (cholesky/QR on non-square radicands) are outside the model; QR is not modelled; matrices with "
+        "Gaussian-rational entries are outside the model and the theorems: on them the library is judged by the driver's oracle only",
     ]
 
 
